@@ -11,6 +11,20 @@ class DummyLock(object):
         pass
 
 
+def _stop_processes(processes):
+    """
+    Terminate (and reap) any of the processes that are still running.
+    Called when one worker has failed, so that its siblings do not keep
+    running -- and writing scratch files -- while the caller is already
+    handling the error and cleaning up.
+    """
+    for p in processes:
+        if p.exitcode is None:
+            p.terminate()
+    for p in processes:
+        p.join()
+
+
 def winnow_process_list(
         process_list):
     """
@@ -28,6 +42,7 @@ def winnow_process_list(
         if process_list[ii].exitcode is not None:
             to_pop.append(ii)
             if process_list[ii].exitcode != 0:
+                _stop_processes(process_list)
                 raise RuntimeError(
                     "One of the processes exited with code "
                     f"{process_list[ii].exitcode}")
@@ -46,6 +61,7 @@ def winnow_process_dict(
     for k in key_list:
         if process_dict[k].exitcode is not None:
             if process_dict[k].exitcode != 0:
+                _stop_processes(list(process_dict.values()))
                 raise RuntimeError(
                     f"One of the processes (key={k}) exited with code "
                     f"{process_dict[k].exitcode}")
